@@ -16,14 +16,15 @@ import vlib
 LEVEL = "model_checking"
 
 # (shape, variant, preemption bound)
-QUICK = [("P1-single", "clean", 1), ("P1-single", "warn", 1), ("P1-single", "err", 1),
-         ("P2-fan", "clean", 1), ("P2-fan", "warn", 1), ("P2-fan", "class", 1),
-         ("P3-diamond", "clean", 1), ("P3-diamond", "warn", 0), ("P3-diamond", "err", 0), ("P3-diamond", "class", 0),
-         ("P4-chain", "clean", 0), ("P5-shared-leaf-3", "clean", 0)]
-THOROUGH = ([(s, v, 2) for s in ("P1-single", "P2-fan") for v in projects.VARIANTS]
-            + [("P3-diamond", v, 2 if v == "clean" else 1) for v in projects.VARIANTS]
+QUICK = ([("P1-single", v, 1) for v in projects.VARIANTS]
+         + [("P2-fan", "clean", 1), ("P2-fan", "warn", 1), ("P2-fan", "err", 0), ("P2-fan", "class", 0)]
+         + [("P3-diamond", v, 0) for v in projects.VARIANTS]
+         + [("P4-chain", "clean", 0), ("P4-chain", "class", 0)])
+THOROUGH = ([("P1-single", v, 3) for v in projects.VARIANTS]
+            + [("P2-fan", v, 2) for v in projects.VARIANTS]
+            + [("P3-diamond", v, 1 if v == "clean" else 0) for v in projects.VARIANTS]
             + [("P4-chain", v, 1) for v in projects.VARIANTS]
-            + [("P5-shared-leaf-3", "clean", 1), ("P5-shared-leaf-3", "class", 1)])
+            + [("P5-shared-leaf-3", "clean", 0), ("P5-shared-leaf-3", "class", 0)])
 
 
 def seq_build():
